@@ -11,7 +11,9 @@ package dtls
 
 import (
 	"bytes"
+	"context"
 	"fmt"
+	"net"
 	"os"
 	"strings"
 	"testing"
@@ -95,6 +97,7 @@ type hs13Case struct {
 	SilenceTo    string       `json:"silence_to"`
 	ReverseTo    string       `json:"reverse_to"`
 	Inject       []hs13Inject `json:"inject,omitempty"`
+	ServerWrites int          `json:"server_writes,omitempty"`
 	MTU          int          `json:"mtu"`
 	Notes        []string     `json:"notes,omitempty"`
 }
@@ -140,6 +143,7 @@ type hs13Opt struct {
 	SilenceTo    string        // ... and addressed to this side ("client", "server", "both") are dropped
 	ReverseTo    string        // every burst of datagrams towards this side ("client", "server", "both") arrives in reverse order
 	Inject       []hs13Inject  // forged unprotected handshake fragments handed to one side at given virtual times
+	ServerWrites int           // the server application writes this many records as soon as its handshake has returned
 	Limit        time.Duration
 }
 
@@ -298,6 +302,55 @@ func (c *hs13Classifier) classify(d vDatagram) []hs13Rec {
 
 // ---------------------------------------------------------------- the scripted run
 
+// hs13CappedEP: an endpoint of the scripted network that refuses to write more than hs13WriteCap datagrams: a
+// transmission loop that never lets virtual time advance (a retransmission interval that overflowed to zero)
+// then ends with a failed handshake instead of hanging the bubble.
+type hs13CappedEP struct {
+	*vEndpoint
+	n int
+}
+
+const hs13WriteCap = 12000
+
+func (e *hs13CappedEP) WriteTo(p []byte, addr net.Addr) (int, error) {
+	e.n++
+	if e.n > hs13WriteCap {
+		_ = e.vEndpoint.Close()
+
+		return 0, errVClosed
+	}
+
+	return e.vEndpoint.WriteTo(p, addr)
+}
+
+// hs13NewLab: newLab with capped endpoints.
+func hs13NewLab(t *testing.T, ccfg, scfg *dtlsConfig) *vLab {
+	t.Helper()
+	n := newVNet()
+	lab := &vLab{Net: n}
+	cep := n.endpoint("client")
+	sep := n.endpoint("server")
+	cc, err := clientWithConfig(&hs13CappedEP{vEndpoint: cep}, vAddr("server"), ccfg)
+	if err != nil {
+		t.Fatalf("client: %v", err)
+	}
+	sc, err := serverWithConfig(&hs13CappedEP{vEndpoint: sep}, vAddr("client"), scfg)
+	if err != nil {
+		t.Fatalf("server: %v", err)
+	}
+	lab.Client = &vPeer{Name: "client", EP: cep, Conn: cc, Done: make(chan struct{})}
+	lab.Server = &vPeer{Name: "server", EP: sep, Conn: sc, Done: make(chan struct{})}
+	lab.Pump = &vPump{net: n}
+	for _, p := range []*vPeer{lab.Client, lab.Server} {
+		go func(p *vPeer) {
+			p.Err = p.Conn.HandshakeContext(context.Background())
+			close(p.Done)
+		}(p)
+	}
+
+	return lab
+}
+
 // runHs13: like runC02 (mask = action per emitted datagram index: pass | drop | dup | hold:k | late:ms, then
 // reliable), with every record opened and blanket-silence options.
 func runHs13(t *testing.T, v c02Variant, mask []string, opt hs13Opt) hs13Case {
@@ -305,7 +358,7 @@ func runHs13(t *testing.T, v c02Variant, mask []string, opt hs13Opt) hs13Case {
 	res := hs13Case{
 		Kind: "hs13", Variant: v.Name, Mask: mask, Interval: opt.Interval.Milliseconds(), NoBackoff: opt.NoBackoff,
 		SilenceFrom: opt.SilenceFrom, SilenceUntil: opt.SilenceUntil.Milliseconds(), SilenceTo: opt.SilenceTo, ReverseTo: opt.ReverseTo,
-		Inject: opt.Inject,
+		Inject: opt.Inject, ServerWrites: opt.ServerWrites,
 	}
 	if res.Interval == 0 {
 		res.Interval = 1000
@@ -315,7 +368,7 @@ func runHs13(t *testing.T, v c02Variant, mask []string, opt hs13Opt) hs13Case {
 		ccfg.FlightInterval, scfg.FlightInterval = opt.Interval, opt.Interval
 	}
 	ccfg.DisableRetransmitBackoff, scfg.DisableRetransmitBackoff = opt.NoBackoff, opt.NoBackoff
-	lab := newLab(t, ccfg, scfg)
+	lab := hs13NewLab(t, ccfg, scfg)
 	defer lab.close()
 	res.MTU = lab.Client.Conn.maximumTransmissionUnit
 	cl := &hs13Classifier{lab: lab, sent: map[hs13Key][3]int{}, isHRR: map[string]bool{}, notes: &res.Notes}
@@ -340,12 +393,27 @@ func runHs13(t *testing.T, v c02Variant, mask []string, opt hs13Opt) hs13Case {
 	var lates []late // kept sorted by release time
 	injects := append([]hs13Inject(nil), opt.Inject...)
 	delivered := 0
+	wrote := false
+	serverWrites := func() {
+		if wrote || opt.ServerWrites == 0 || !lab.Server.handshakeDone() || lab.Server.Err != nil {
+			return
+		}
+		wrote = true
+		for i := 0; i < opt.ServerWrites; i++ {
+			if _, err := lab.Server.Conn.Write([]byte(fmt.Sprintf("early-%d", i))); err != nil {
+				cl.note("server write %d: %v", i, err)
+			}
+		}
+		synctest.Wait()
+		logEmissions("deliver")
+	}
 	deliver := func(d vDatagram) {
 		res.Events = append(res.Events, hs13Event{Ev: "deliver", Idx: d.Idx, Side: d.To, T: lab.Net.now().Milliseconds()})
 		lab.Net.deliver(d.To, d.From, d.Data)
 		delivered++
 		synctest.Wait()
 		logEmissions("deliver")
+		serverWrites()
 	}
 	next := 0
 	limit := opt.Limit
